@@ -1,6 +1,9 @@
 (* C18 - laws of the ranking-function operations, for every table (any signature length, any rank values). *)
 From InfOCF Require Import Core Form Model Ocf ThmOcf.
 From Coq Require Import Sorted.
+From InfOCF Require Import PyLib TieOcf.
+From InfOCFGen Require Import SrcOcf SrcOcfCustom.
+From Coq Require Import ZArith.
 
 (* the rank of a formula is the least rank of its models ... *)
 Theorem C18_formula_rank_least : forall t phi m, prank t phi = Some m <->
@@ -51,6 +54,27 @@ Proof. exact tpo_roundtrip_order. Qed.
 Print Assumptions C18_tpo_roundtrip_order.
 
 Definition t2 : table := [([false;false], Some 0); ([false;true], Some 3); ([true;false], Some 1); ([true;true], Some 3)].
+
+(* SOURCE TIE.  formula_rank, conditional_acceptance, the conditionalisation helpers and CustomPreOCF.rank_world are GENERATED on
+   every run from /repo's preocf.py (coq/gen/SrcOcf.v, SrcOcfCustom.v).  For every signature size and every total ranking
+   table over distinct worlds of the signature they return the model's values (frank, accept, conditionalize), to which the
+   laws above apply. *)
+Theorem C18_source_formula_rank_is_model : forall n (t:table), NoDup (map fst t) -> (forall p, In p t -> In (fst p) (worlds n)) ->
+  (forall p, In p t -> snd p <> None) -> forall f,
+  py_PreOCF_formula_rank n (fun w => py_CustomPreOCF_rank_world n (zt t) w false) (zt t) f = Return (option_map Z.of_nat (frank t f)).
+Proof. exact tie_formula_rank. Qed.
+Print Assumptions C18_source_formula_rank_is_model.
+Theorem C18_source_acceptance_is_model : forall n (t:table), NoDup (map fst t) -> (forall p, In p t -> In (fst p) (worlds n)) ->
+  (forall p, In p t -> snd p <> None) -> forall c,
+  py_PreOCF_conditional_acceptance n (fun w => py_CustomPreOCF_rank_world n (zt t) w false) (zt t) c = Return (accept t c).
+Proof. exact tie_conditional_acceptance. Qed.
+Print Assumptions C18_source_acceptance_is_model.
+Theorem C18_source_conditionalisation_is_model : forall n (t:table), NoDup (map fst t) -> (forall p, In p t -> In (fst p) (worlds n)) -> forall f,
+  py_PreOCF_conditionalize_existing_ranks n (zt t) f
+  = Return (map (fun p => (fst p, option_map Z.of_nat (snd p))) (conditionalize t f)).
+Proof. exact tie_conditionalize_existing. Qed.
+Print Assumptions C18_source_conditionalisation_is_model.
+
 Example ocf_example : frank t2 (FVar 1) = Some 3 /\ frank t2 (FAnd (FVar 0) (FNot (FVar 0))) = None
   /\ marginalize [0] t2 = [([false], Some 0); ([true], Some 3)]
   /\ ranks2tpo t2 = [[[false;false]]; [[true;false]]; [[false;true];[true;true]]]
